@@ -223,3 +223,25 @@ def local_uses(body, local):
             if t.discr.local() == local:
                 out.append((blk.idx, t.line, "switch"))
     return out
+
+
+def iter_chain(t):
+    """the calls of an iterator adaptor chain, outermost first, following receivers only (closure captures and other
+    arguments are not entered)"""
+    out = []
+    hops = 0
+    while hops < 60 and isinstance(t, tuple) and t:
+        hops += 1
+        k = t[0]
+        if k in ("ref", "deref", "cast"):
+            t = t[1]
+        elif k == "var":
+            t = t[3]
+        elif k == "call":
+            out.append(t)
+            if not t[2]:
+                break
+            t = t[2][0]
+        else:
+            break
+    return out
